@@ -139,6 +139,21 @@ Consume(cons, n, ks) ==
 Std(chain, cons, n, src) == Consume(cons, n, Keys(TyEnd(chain), StdSeq(chain, cons, Len(chain), src)))
 
 -----------------------------------------------------------------------------
+(* Sources.  The chain starts from a value that `into_iter!` turns into an iterator; the abstract input is
+   the sequence it yields.  Each kind goes through its own ConstIntoIter impl (IsStdKind for slices, array
+   references and ranges; IsIteratorKind for konst's own iterator structs), and each can denote only some
+   sequences:  a range only ascending runs, repeat(v) followed by take(k) only constant ones, chars of a
+   string literal (followed by `map(|c| c as u64)`) only ASCII scalars.  Whatever the source kind, the
+   chain must produce Std(chain, ..) of the denoted sequence. *)
+SourceKinds == {"slice", "array", "iter_copied", "range", "range_incl", "chars", "repeat_take"}
+Contiguous(s) == \A q \in 1..(Len(s) - 1) : s[q + 1] = s[q] + 1
+Denotes(kind, s) ==
+    CASE kind \in {"range", "range_incl"} -> Contiguous(s)
+      [] kind = "repeat_take" -> s # <<>> /\ \A q \in 1..Len(s) : s[q] = s[1]
+      [] kind = "chars" -> \A q \in 1..Len(s) : s[q] < 128
+      [] OTHER -> TRUE
+
+-----------------------------------------------------------------------------
 (* M: the generated loop machine *)
 SrcBack(chain, cons) == NRev(chain, cons) >= 1
 \* direction in force at position q (1-based, before adapter q runs): the source's, flipped by every rev before q
